@@ -92,6 +92,18 @@ def sparql_nonfinite_rule(ck, facts):
                     guards.append((cand, finite_edge))
                     break
     unguarded = [t for bi, t in exps if not any(edge_dominates(fn, (g, e), bi) for g, e in guards)]
+    d2s = facts.find_fns(crate="sophia_sparql", name_re=r"^value::dec2string$")
+    if len(d2s) == 1:
+        disp = [t for _, t in d2s[0].calls() if call_name_matches(t, r"string::ToString>?::to_string$") and t["args"] and t["args"][0][0] != "k"
+                and "BigDecimal" in d2s[0].locals[t["args"][0][1][0]]["ty"]]
+        if disp:
+            ck.bad("R20.3", "R20.3@dec2string#scientific-notation", "computed decimals are written with BigDecimal's Display, which switches to "
+                   "scientific notation for small values: BIND(1/10000000 AS ?x) gives \"1E-7\"^^xsd:decimal, not a lexical form of "
+                   "xsd:decimal", "%s:%s" % (disp[0]["file"], disp[0]["line"]))
+        else:
+            ck.ok("R20.3", "dec2string does not use BigDecimal's Display (plain notation)")
+    else:
+        ck.bad("R20.3", "R20.3@dec2string#anchor", "anchor-missing (%d)" % len(d2s))
     if unguarded:
         ck.bad("R20.3", "R20.3@SparqlValue::lexical_form#non-finite", "floats / doubles computed by the engine are formatted with `{:e}` on paths "
                "with no is_infinite / is_finite test: `SELECT (1e308*10 AS ?x) {}` and `1/0e0` return \"inf\"^^xsd:double, an ill-typed "
@@ -235,6 +247,28 @@ def run(ck, facts, tier):
                     dtarg = a
             if st and dtarg is not None:
                 tests.append((cand, bs[1], st))
+        if not tests:
+            # the whitelist as data: `[xsd::a, xsd::b, ..].iter().any(|c| Term::eq(&term.datatype().unwrap(), *c))`
+            for cand in range(len(fn.blocks)):
+                bs = bool_switch(fn, cand)
+                if not bs or bs[0][0] != "call" or not call_name_matches(bs[0][1], r"iter::Iterator>?::any$"):
+                    continue
+                anyt = bs[0][1]
+                clo = fn.origin(anyt["args"][1]) if len(anyt["args"]) > 1 else ("?",)
+                cf = facts.fns.get(clo[1]["def"]) if clo[0] == "agg" and clo[1].get("k") == "closure" else None
+                if cf is None or not any(call_name_matches(ct, r"term::Term::eq$|Term>::eq$|cmp::PartialEq.*::eq$")
+                                         and any(comes_from_call(cf, a, r"Term::datatype$|Term>::datatype$") for a in ct["args"]) for _, ct in cf.calls()):
+                    continue
+                statics = []
+                for b in fn.blocks:
+                    for st_ in b["s"]:
+                        if st_[0] == "=" and st_[2][0] == "agg" and st_[2][1].get("k") == "array":
+                            for op in st_[2][2]:
+                                last = provenance(fn, op)[-1]
+                                if last[0] == "const" and last[1].get("kind") == "static":
+                                    statics.append(last[1]["def"])
+                for sdef in statics:
+                    tests.append((cand, bs[1], sdef))
         names = {s.split("::")[-1] for _, _, s in tests}
         for _, ct in fn.calls():
             if call_name_matches(ct, r"term::Term::eq$|Term>::eq$|cmp::PartialEq.*::eq$") and \
